@@ -617,6 +617,54 @@ impl<'tcx> Cx<'tcx> {
                                     "bytes",
                                     J::Arr(bytes.iter().map(|b| J::Int(*b as i128)).collect()),
                                 );
+                                // `&Struct` of integer fields (e.g. a promoted RangeInclusive<u8>): decode the
+                                // fields through the computed layout (field order in memory is not source order)
+                                if let ty::Ref(_, inner, _) = ty.kind() {
+                                    if let ty::Adt(adt, args) = inner.kind() {
+                                        if adt.is_struct() && adt.all_fields().count() <= 4 {
+                                            if let Ok(layout) = tcx.layout_of(env.as_query_input(*inner)) {
+                                                let mut fs = Vec::new();
+                                                let mut ok = true;
+                                                for (i, f) in adt.non_enum_variant().fields.iter().enumerate() {
+                                                    let fty = f.ty(tcx, args);
+                                                    if !(fty.is_integral() || fty.is_bool()) {
+                                                        ok = false;
+                                                        break;
+                                                    }
+                                                    let fo = layout.fields.offset(i).bytes_usize();
+                                                    let fl = match tcx.layout_of(env.as_query_input(fty)) {
+                                                        Ok(l) => l.size.bytes_usize(),
+                                                        Err(_) => {
+                                                            ok = false;
+                                                            break;
+                                                        }
+                                                    };
+                                                    if fo + fl > bytes.len() || fl > 16 {
+                                                        ok = false;
+                                                        break;
+                                                    }
+                                                    let mut v: u128 = 0;
+                                                    for (k, b) in bytes[fo..fo + fl].iter().enumerate() {
+                                                        v |= (*b as u128) << (8 * k);
+                                                    }
+                                                    let iv: i128 = if fty.is_signed() && fl < 16 {
+                                                        let sh = 128 - 8 * fl as u32;
+                                                        ((v << sh) as i128) >> sh
+                                                    } else {
+                                                        v as i128
+                                                    };
+                                                    let mut fo2 = J::obj();
+                                                    fo2.set("n", J::s(f.name.to_string()));
+                                                    fo2.set("v", J::Int(iv));
+                                                    fs.push(fo2);
+                                                }
+                                                if ok {
+                                                    o.set("struct", J::Arr(fs));
+                                                }
+                                            }
+                                        }
+                                    }
+                                }
                             } else if a.provenance().ptrs().len() == 1
                                 && a.len() == 16
                                 && off.bytes() == 0
